@@ -162,7 +162,10 @@ def check_pair(ctx, P, t, a, base=None):
             ctx.check('parse(P+enc(M)) == parse(P)+[M]', ok and after[-1:] == [M], f'after-failed-feed:{how}:' + t, case,
                       lambda: {'got': [m.hex() for m in after], 'want': [m.hex() for m in base] + [M.hex()]})
         # the prefix and the message arrive in separate feed() calls (bytes and list chunks)
-        for cont in (bytes, list):
+        import array
+        wide = (lambda c: array.array('H', c)) if (len(P) + len(enc)) % 2 else (lambda c: memoryview(array.array('i', c)))
+        wide.__name__ = 'wide-array'
+        for cont in (bytes, list, wide):
             import copy
             with gen.jumping_clocks():
                 p = Parser()
